@@ -118,6 +118,29 @@ reg('C20', 'exploration',
     'is ever run: only the generated files and the quoting API are observed.',
     'DESIGN.md §2 C20')
 
+reg('C08', 'exploration',
+    'edit histories on generated projects with the back end itself (make / reference ninja) doing '
+    'the regeneration; build files byte-compared with a fresh configure at the same path after '
+    'every step; out-of-tree process tracer decides whether bfg9000 ran again',
+    'After each edit (scripts, options, toolchain, files/dirs matching or not matching find '
+    'patterns, submodule removal ...) the back end is run, the primary build files must equal a '
+    'fresh configure of the same tree (replaying the recorded configure command and environment), '
+    'and a second run must neither invoke bfg9000 nor build anything. A back end that refuses to '
+    'run is regen-blocked, silent staleness regen-missed, wrong content regen-differs.',
+    'Trusted: the harness replay of the configure command as "same saved configuration" (C09 '
+    'covers the saved file itself); refninja for Ninja; timestamp discipline.',
+    'DESIGN.md §2 C08')
+reg('C11', 'exploration',
+    'return values of find_files/find_paths dumped from inside real configure runs compared '
+    'with a naive reference matcher written from the documentation; in-process monitor of '
+    'FileFilter.match pruning verdicts; dist lists from the generated rule and real archives',
+    'Random trees x documented pattern grammar x type/extra/exclude/filter/dist/cache; result '
+    'sets must lie between the reference lower and upper answers (upper only where the docs are '
+    'open), every entry must exist, repeated / cache-flipped calls agree, nothing selected lies '
+    'below a pruned directory, found+extra files are in the dist list.',
+    'Trusted: vf/ref/refglob.py (self-checked against 16 hand-written expectations each run).',
+    'DESIGN.md §2 C11')
+
 NOT_APPLICABLE = {}
 
 ALL = ['C%02d' % i for i in range(1, 21)]
